@@ -468,12 +468,51 @@ func ruleShufflePerm(c *Ctx) {
 			c.ok(key, call.Pos(), "%s(..., %s)", w.inner, w.dir)
 		}
 	}
-	// (e) NewShufflingEpoch
+	// (e) NewShufflingEpoch: what becomes the Shuffling field is new memory, filled position by position from what
+	// becomes the ActiveIndices field, and un-shuffled with SHUFFLE_ROUND_COUNT. The two are identified by the field they
+	// are stored in (a field store or a field of the literal), whatever the locals are called.
 	pk3, f3 := c.P.mustFunc("eth2/beacon/common", "NewShufflingEpoch")
+	info3 := pk3.TypesInfo
+	defs3 := singleDefs(info3, f3.Body)
+	var shufE, actE ast.Expr
+	for _, bld := range structBuilds(info3, f3.Body, "ShufflingEpoch") {
+		if e := bld.fields["Shuffling"]; e != nil {
+			shufE = e
+		}
+		if e := bld.fields["ActiveIndices"]; e != nil {
+			actE = e
+		}
+	}
+	// names: the variable (or recv.Field path) that stands for each
+	sameAs := func(e ast.Expr, field string, src ast.Expr) bool {
+		e = ast.Unparen(e)
+		if sel, ok := e.(*ast.SelectorExpr); ok && sel.Sel.Name == field {
+			if nt := namedOf(info3.TypeOf(sel.X)); nt != nil && nt.Obj().Name() == "ShufflingEpoch" {
+				return true
+			}
+		}
+		if src == nil {
+			return false
+		}
+		if id, ok := e.(*ast.Ident); ok {
+			if sid, ok := ast.Unparen(src).(*ast.Ident); ok && info3.ObjectOf(id) == info3.ObjectOf(sid) {
+				return true
+			}
+		}
+		return false
+	}
+	isShuf := func(e ast.Expr) bool { return sameAs(e, "Shuffling", shufE) }
+	isAct := func(e ast.Expr) bool {
+		if sameAs(e, "ActiveIndices", actE) {
+			return true
+		}
+		// the field's value written out again (ActiveIndices(indicesBounded, epoch))
+		return actE != nil && types.ExprString(resolveLocal(info3, e, defs3, 2)) == types.ExprString(resolveLocal(info3, actE, defs3, 2))
+	}
 	var un *ast.CallExpr
 	ast.Inspect(f3.Body, func(n ast.Node) bool {
 		if cl, ok := n.(*ast.CallExpr); ok {
-			if f := calleeFunc(pk3.TypesInfo, cl); f != nil && (f.Name() == "UnshuffleList" || f.Name() == "ShuffleList") {
+			if f := calleeFunc(info3, cl); f != nil && (f.Name() == "UnshuffleList" || f.Name() == "ShuffleList") {
 				un = cl
 			}
 		}
@@ -482,42 +521,36 @@ func ruleShufflePerm(c *Ctx) {
 	switch {
 	case un == nil:
 		c.bad("NewShufflingEpoch.unshuffle", f3.Pos(), "the epoch shuffling is never shuffled")
-	case calleeFunc(pk3.TypesInfo, un).Name() != "UnshuffleList":
+	case calleeFunc(info3, un).Name() != "UnshuffleList":
 		c.bad("NewShufflingEpoch.unshuffle", un.Pos(), "committee positions must be computed with UnshuffleList (position -> validator = inverse permutation), found ShuffleList")
 	case !strings.Contains(types.ExprString(un.Args[0]), "SHUFFLE_ROUND_COUNT"):
 		c.bad("NewShufflingEpoch.unshuffle", un.Pos(), "round count is %s, want spec.SHUFFLE_ROUND_COUNT", types.ExprString(un.Args[0]))
-	case !strings.HasSuffix(types.ExprString(un.Args[1]), ".Shuffling"):
+	case !isShuf(un.Args[1]):
 		c.bad("NewShufflingEpoch.unshuffle", un.Pos(), "the list un-shuffled is %s, want the copy of the active indices", types.ExprString(un.Args[1]))
 	default:
 		c.ok("NewShufflingEpoch.unshuffle", un.Pos(), "UnshuffleList(SHUFFLE_ROUND_COUNT, Shuffling, seed)")
 	}
-	// element-wise copy: a range over ActiveIndices assigning Shuffling[i] = v
+	// element-wise copy: a range over ActiveIndices assigning Shuffling[i] = v, or copy(Shuffling, ActiveIndices)
 	copyOK := false
 	ast.Inspect(f3.Body, func(n ast.Node) bool {
-		rs, ok := n.(*ast.RangeStmt)
-		if !ok || !strings.HasSuffix(types.ExprString(rs.X), ".ActiveIndices") || len(rs.Body.List) != 1 {
-			return true
-		}
-		if as, ok := rs.Body.List[0].(*ast.AssignStmt); ok && len(as.Lhs) == 1 && len(as.Rhs) == 1 {
-			if ix, ok := ast.Unparen(as.Lhs[0]).(*ast.IndexExpr); ok && strings.HasSuffix(types.ExprString(ix.X), ".Shuffling") &&
-				rs.Key != nil && rs.Value != nil && types.ExprString(ix.Index) == types.ExprString(rs.Key) && types.ExprString(as.Rhs[0]) == types.ExprString(rs.Value) {
+		switch x := n.(type) {
+		case *ast.RangeStmt:
+			if !isAct(x.X) || len(x.Body.List) != 1 {
+				return true
+			}
+			if as, ok := x.Body.List[0].(*ast.AssignStmt); ok && len(as.Lhs) == 1 && len(as.Rhs) == 1 {
+				if ix, ok := ast.Unparen(as.Lhs[0]).(*ast.IndexExpr); ok && isShuf(ix.X) &&
+					x.Key != nil && x.Value != nil && types.ExprString(ix.Index) == types.ExprString(x.Key) && types.ExprString(as.Rhs[0]) == types.ExprString(x.Value) {
+					copyOK = true
+				}
+			}
+		case *ast.CallExpr:
+			if id, ok := x.Fun.(*ast.Ident); ok && id.Name == "copy" && len(x.Args) == 2 && isShuf(x.Args[0]) && isAct(x.Args[1]) {
 				copyOK = true
 			}
 		}
 		return true
 	})
-	if !copyOK {
-		// copy(shep.Shuffling, shep.ActiveIndices)
-		ast.Inspect(f3.Body, func(n ast.Node) bool {
-			if cl, ok := n.(*ast.CallExpr); ok {
-				if id, ok := cl.Fun.(*ast.Ident); ok && id.Name == "copy" && len(cl.Args) == 2 &&
-					strings.HasSuffix(types.ExprString(cl.Args[0]), ".Shuffling") && strings.HasSuffix(types.ExprString(cl.Args[1]), ".ActiveIndices") {
-					copyOK = true
-				}
-			}
-			return true
-		})
-	}
 	if copyOK {
 		c.ok("NewShufflingEpoch.copy", f3.Pos(), "Shuffling starts as an element-wise copy of ActiveIndices (ActiveIndices itself stays unshuffled)")
 	} else {
